@@ -63,12 +63,18 @@ def scope(tier):
         tf44m=dict(sizes=[[4, 4]], mesh=True, max_dead_chips=0 if q else 1,
                    max_tree_links=2 if q else 3, extra_links=0,
                    max_sinks=2, tiebreak_bound=0 if q else 1),
+        # "walls": every link crossing between two columns (or rows) is dead
+        # except the links of one row, in one or both directions: long A*
+        # detours through other subtrees
+        walls=dict(sizes=[[4, 3], [5, 3]] if q else [[4, 3], [5, 3], [5, 5],
+                                                      [6, 2], [3, 5]],
+                   mesh=True, max_sinks=2, tiebreak_bound=0),
         leaves=dict(note="2x2 fault-free, every kind assignment, duplicated "
                          "sinks, self loops"),
         radii=[0, 20] if q else [0, 1, 2, 20])
 
 
-FAMILIES = ("tiny", "small", "t32", "t33", "m33", "m44", "almost")
+FAMILIES = ("tiny", "small", "t32", "t33", "m33", "m44", "almost", "walls")
 TF_FAMILIES = ("tf33", "tf33m", "tf33x", "tf44m")
 K = 16
 
@@ -89,7 +95,46 @@ def subsets(items, maxn):
             yield c
 
 
+def wall_machines(tier):
+    sc = scope(tier)["walls"]
+    for w, h in sc["sizes"]:
+        base = sorted(wrap_links(w, h))
+        for axis in (0, 1):
+            n = w if axis == 0 else h
+            for c in range(n - 1):
+                # links crossing between coordinate c and c+1 on that axis
+                cross = []
+                for (x, y, l) in all_links(w, h):
+                    if (x, y, l) in set(base):
+                        continue
+                    dx, dy = {0: (1, 0), 1: (1, 1), 2: (0, 1), 3: (-1, 0),
+                              4: (-1, -1), 5: (0, -1)}[l]
+                    a = (x, y)[axis]
+                    b = a + (dx, dy)[axis]
+                    if {a, b} == {c, c + 1}:
+                        cross.append((x, y, l))
+                other = h if axis == 0 else w
+                for gap in range(other):
+                    for mode in ("both", "forward_only", "none_but_diagonal"):
+                        keep = []
+                        for (x, y, l) in cross:
+                            r = (x, y)[1 - axis]
+                            if mode == "none_but_diagonal":
+                                if r == gap and l in (1, 4):
+                                    keep.append((x, y, l))
+                            elif r == gap and l in ((0, 3) if axis == 0
+                                                    else (2, 5)):
+                                if mode == "both" or l in (0, 2):
+                                    keep.append((x, y, l))
+                        dead = [k for k in cross if k not in keep]
+                        yield (w, h, [], base + dead)
+
+
 def machines(fam, tier):
+    if fam == "walls":
+        for m_ in wall_machines(tier):
+            yield m_
+        return
     sc = scope(tier)[fam]
     for w, h in sc["sizes"]:
         links = all_links(w, h)
